@@ -41,7 +41,7 @@ type c07Case struct {
 	Inject     string
 	Shape      bool // a long descriptor list whose last entry is a read-write file with a number lower than its index
 	K          int  // index for mount / rlimit injections
-	N          int // number of mounts / rlimits
+	N          int  // number of mounts / rlimits
 }
 
 var c07Injections = []string{"none", "clone-cgroupfd", "idmap", "setgroups-denied", "setgid-unmapped", "setuid-unmapped", "closed-fd", "ctty",
